@@ -61,10 +61,10 @@ Emit == Terminal =>
 \* written once (the harness probes every real state of every member with it)
 EmitProbes == (log = <<>>) =>
     CSVWrite("%1$s", <<ToJson([n |-> N, excluded |-> SetToSeq(Excluded),
-                               probes |-> SetToSeq(UNION {{[i |-> i, m |-> Wire(m), admit |-> Admit(i, m)] :
-                                                             m \in Forged(i) \cup {Genuine(t, i) : t \in MsgTypes}} : i \in Operating})])>>,
+                               probes |-> UNION {{[i |-> i, m |-> Wire(m), admit |-> Admit(i, m)] :
+                                                    m \in Forged(i) \cup {Genuine(t, i) : t \in MsgTypes}} : i \in Operating}])>>,
              "probes.ndjson")
 
 \* stop a simulated behaviour once it was emitted / bound its length
-StopAfterEmit == ~Terminal /\ Len(log) < MaxLog + 60
+StopAfterEmit == ~Terminal /\ Len(log) < 70 * N
 =============================================================================
